@@ -65,8 +65,11 @@ func runC09(c c09Case) Result {
 	tags := []string{}
 	classes := map[string]bool{}
 	for i, r := range append(append([]genReq(nil), c.Requests...), c.Canary) {
-		res := ts.do(r.Method, r.bytes())
+		res := ts.doReq(r)
 		tags = append(tags, "req:"+r.Class, fmt.Sprintf("status:%d", res.Status))
+		if r.Framing != "" {
+			tags = append(tags, "framing:"+r.Framing)
+		}
 		if r.Expect == "gray" {
 			tags = append(tags, fmt.Sprintf("gray-answer:%s:%d", r.Class, res.Status))
 		}
